@@ -71,6 +71,11 @@ type transaction struct {
 	readOnly bool
 	b        *batch
 	l        *LevelDB
+	// r is what the transaction reads from: the database itself for a write
+	// transaction (writers are serialized), a snapshot for a read transaction,
+	// so that a query sees one consistent state while blocks are being applied.
+	r    leveldb.Reader
+	snap *leveldb.Snapshot
 
 	cache map[db.BucketMeta]*levelBucket
 }
@@ -157,15 +162,22 @@ func (l *LevelDB) BeginTx() (db.DBTransaction, error) {
 		readOnly: false,
 		b:        newBatch(),
 		l:        l,
+		r:        l.ldb,
 		cache:    make(map[db.BucketMeta]*levelBucket),
 	}, nil
 }
 
 // BeginReadTx ...
 func (l *LevelDB) BeginReadTx() (db.ReadTransaction, error) {
+	snap, err := l.ldb.GetSnapshot()
+	if err != nil {
+		return nil, err
+	}
 	return &transaction{
 		readOnly: true,
 		l:        l,
+		r:        snap,
+		snap:     snap,
 		cache:    make(map[db.BucketMeta]*levelBucket),
 	}, nil
 }
@@ -175,7 +187,7 @@ func (tx *transaction) TopLevelBucket(name string) db.Bucket {
 	bucketPath := joinBucketPath(topLevelBucketDepth, name)
 	key := []byte(joinBucketPath(bucketNameBucket, bucketPath))
 
-	_, err := tx.l.ldb.Get(key, nil)
+	_, err := tx.r.Get(key, nil)
 	if !tx.readOnly && err == leveldb.ErrNotFound {
 		if v, _ := tx.b.Get(key); v != nil {
 			err = nil
@@ -200,7 +212,7 @@ func (tx *transaction) BucketNames() (names []string, err error) {
 
 	prefix := []byte(joinBucketPath(bucketNameBucket, topLevelBucketDepth, ""))
 
-	iter := tx.l.ldb.NewIterator(util.BytesPrefix(prefix), nil)
+	iter := tx.r.NewIterator(util.BytesPrefix(prefix), nil)
 	defer iter.Release()
 
 	names = make([]string, 0)
@@ -260,7 +272,7 @@ func (tx *transaction) FetchBucket(meta db.BucketMeta) db.Bucket {
 		path := joinBucketPath(meta.Paths()...)
 		key := []byte(joinBucketPath(bucketNameBucket, path))
 
-		_, err := tx.l.ldb.Get(key, nil)
+		_, err := tx.r.Get(key, nil)
 		if !tx.readOnly && err == leveldb.ErrNotFound {
 			if v, _ := tx.b.Get(key); v != nil {
 				err = nil
@@ -296,7 +308,7 @@ func (tx *transaction) CreateTopLevelBucket(name string) (db.Bucket, error) {
 	bucketPath := joinBucketPath(topLevelBucketDepth, name)
 	key := []byte(joinBucketPath(bucketNameBucket, bucketPath))
 
-	_, err := tx.l.ldb.Get(key, nil)
+	_, err := tx.r.Get(key, nil)
 	if err == nil {
 		_, deleted := tx.b.Get(key)
 		if !deleted {
@@ -335,6 +347,9 @@ func (tx *transaction) DeleteTopLevelBucket(name string) error {
 func (tx *transaction) Rollback() error {
 	if !tx.readOnly {
 		tx.l.muTr.Unlock()
+	} else if tx.snap != nil {
+		tx.snap.Release()
+		tx.snap = nil
 	}
 	return nil
 }
@@ -342,7 +357,7 @@ func (tx *transaction) Rollback() error {
 // Commit ...
 func (tx *transaction) Commit() error {
 	if tx.readOnly {
-		return nil
+		return tx.Rollback()
 	}
 	err := tx.l.ldb.Write(tx.b.b, nil)
 	tx.l.muTr.Unlock()
@@ -370,7 +385,7 @@ func (b *levelBucket) NewBucket(name string) (db.Bucket, error) {
 	}
 
 	key := []byte(joinBucketPath(bucketNameBucket, sub.path))
-	_, err = b.tx.l.ldb.Get(key, nil) // value == name
+	_, err = b.tx.r.Get(key, nil) // value == name
 	if err == nil {
 		_, deleted := b.tx.b.Get(key)
 		if !deleted {
@@ -403,7 +418,7 @@ func (b *levelBucket) Bucket(name string) db.Bucket {
 
 	key := []byte(joinBucketPath(bucketNameBucket, sub.path))
 
-	_, err = b.tx.l.ldb.Get(key, nil)
+	_, err = b.tx.r.Get(key, nil)
 	if !b.tx.readOnly && err == leveldb.ErrNotFound {
 		if v, _ := b.tx.b.Get(key); v != nil {
 			err = nil
@@ -457,7 +472,7 @@ func (b *levelBucket) BucketNames() (names []string, err error) {
 	ss = append(ss, "")
 	prefix := []byte(joinBucketPath(bucketNameBucket, joinBucketPath(ss...)))
 
-	iter := b.tx.l.ldb.NewIterator(util.BytesPrefix(prefix), nil)
+	iter := b.tx.r.NewIterator(util.BytesPrefix(prefix), nil)
 	defer iter.Release()
 
 	names = make([]string, 0)
@@ -540,7 +555,7 @@ func deleteBucket(b *levelBucket) error {
 
 	// delete k/v in bucket
 	prefix := []byte(joinBucketPath(b.path, ""))
-	iter := b.tx.l.ldb.NewIterator(util.BytesPrefix(prefix), nil)
+	iter := b.tx.r.NewIterator(util.BytesPrefix(prefix), nil)
 	for iter.Next() {
 		_, deleted := b.tx.b.Get(iter.Key())
 		if deleted {
@@ -600,7 +615,7 @@ func (b *levelBucket) Get(key []byte) ([]byte, error) {
 		return nil, nil
 	}
 
-	value, err := b.tx.l.ldb.Get(key, nil)
+	value, err := b.tx.r.Get(key, nil)
 	if err != nil {
 		if err == leveldb.ErrNotFound {
 			if b.tx.readOnly {
@@ -644,7 +659,7 @@ func (b *levelBucket) Clear() error {
 	}
 	prefix := []byte(joinBucketPath(b.path, ""))
 
-	iter := b.tx.l.ldb.NewIterator(util.BytesPrefix(prefix), nil)
+	iter := b.tx.r.NewIterator(util.BytesPrefix(prefix), nil)
 	defer iter.Release()
 
 	for iter.Next() {
@@ -676,7 +691,7 @@ func (b *levelBucket) GetByPrefix(prefix []byte) ([]*db.Entry, error) {
 	entries := make([]*db.Entry, 0)
 	set := make(map[string]struct{})
 
-	iter := b.tx.l.ldb.NewIterator(util.BytesPrefix(innerPrefix), nil)
+	iter := b.tx.r.NewIterator(util.BytesPrefix(innerPrefix), nil)
 	defer iter.Release()
 
 	for iter.Next() {
@@ -885,7 +900,7 @@ func (b *levelBucket) NewIterator(slice *db.Range) db.Iterator {
 		b:       b,
 		slice:   slice,
 		iterEnd: false,
-		iter: b.tx.l.ldb.NewIterator(&util.Range{
+		iter: b.tx.r.NewIterator(&util.Range{
 			Start: slice.Start,
 			Limit: slice.Limit,
 		}, nil),
